@@ -1114,6 +1114,35 @@ fn families_of(prop: &str, tier: Tier) -> Vec<Cfg> {
             t.dev = 0;
             t.watchdog_calls = 900;
             v.push(t);
+            // requests whose call failed or was given up after the packet had gone out (fault at the flush, at a later
+            // write, cancellation): they are still awaiting their acknowledgement and keep their identifiers, also on the
+            // resumed connection
+            let mut ff = Cfg::base("C07-requests-whose-call-failed-keep-their-identifiers");
+            ff.props = vec!["C07"];
+            ff.ops = vec![OpK::Sub, OpK::Unsub, OpK::Pub1, OpK::Pub2, OpK::Poll, OpK::Age];
+            ff.io = IoMenu::faults_only();
+            ff.io.flush_pending = true;
+            ff.io.write_pending = true;
+            ff.cancel = true;
+            ff.max_ops = if q { 5 } else { 6 };
+            ff.max_conns = 2;
+            ff.max_reqs = 3;
+            ff.dev = if q { 1 } else { 2 };
+            ff.watchdog_calls = 600;
+            v.push(ff);
+            // ... and when the transport reports the fault but stays usable
+            let mut fk = Cfg::base("C07-requests-whose-call-failed-on-a-transport-that-stays-usable");
+            fk.props = vec!["C07"];
+            fk.ops = vec![OpK::Sub, OpK::Unsub, OpK::Pub1, OpK::Poll, OpK::Age];
+            fk.io = IoMenu::faults_only();
+            fk.io.err_keeps_open = true;
+            fk.io.write_zero = true;
+            fk.max_ops = if q { 5 } else { 6 };
+            fk.max_conns = 2;
+            fk.max_reqs = 3;
+            fk.dev = 1;
+            fk.watchdog_calls = 600;
+            v.push(fk);
             v
         }
         "C11" => {
